@@ -225,11 +225,29 @@ Proof. apply frame_same_maps; reflexivity. Qed.
 Lemma frame_set_now s n : mb_frame s (set_now n s).
 Proof. apply frame_same_maps; reflexivity. Qed.
 
+Lemma frame_set_reg s m : mb_frame s (set_reg m s).
+Proof. apply frame_same_maps; reflexivity. Qed.
+Lemma frame_set_rlock s b : mb_frame s (set_rlock b s).
+Proof. apply frame_same_maps; reflexivity. Qed.
+Lemma frame_set_rpend s n : mb_frame s (set_rpend n s).
+Proof. apply frame_same_maps; reflexivity. Qed.
+
 Ltac split_ifs :=
   repeat match goal with
   | |- context [if ?c then _ else _] => destruct c
   | |- context [match ?c with _ => _ end] => destruct c
   end.
+
+Lemma frame_adj_refs s a b s' : adj_refs s a b = Acc s' -> mb_frame s s'.
+Proof.
+  unfold adj_refs. intros H. inv_res H; norm_gets; subst s'; eapply frame_put_actor; eauto.
+Qed.
+Lemma frame_release_entry s ty s' : release_entry s ty = Acc s' -> mb_frame s s'.
+Proof.
+  unfold release_entry. destruct (reg s ty); intros H.
+  - eapply frame_adj_refs; eauto.
+  - injection H as <-. apply mb_frame_refl.
+Qed.
 
 (** prove [mb_frame s s'] for a state built from [s] by the state constructors *)
 Ltac fr :=
@@ -244,7 +262,16 @@ Ltac fr :=
   | |- mb_frame ?s (set_handles _ ?s1) => apply (mb_frame_trans s s1); [ | apply frame_set_handles ]; fr
   | |- mb_frame ?s (set_joins _ ?s1) => apply (mb_frame_trans s s1); [ | apply frame_set_joins ]; fr
   | |- mb_frame ?s (set_now _ ?s1) => apply (mb_frame_trans s s1); [ | apply frame_set_now ]; fr
+  | |- mb_frame ?s (set_reg _ ?s1) => apply (mb_frame_trans s s1); [ | apply frame_set_reg ]; fr
+  | |- mb_frame ?s (set_rlock _ ?s1) => apply (mb_frame_trans s s1); [ | apply frame_set_rlock ]; fr
+  | |- mb_frame ?s (set_rpend _ ?s1) => apply (mb_frame_trans s s1); [ | apply frame_set_rpend ]; fr
   | |- mb_frame ?s (match ?c with _ => _ end) => destruct c; fr
+  | |- mb_frame ?s ?v =>
+      (* an intermediate state produced by a helper that only touches reference counts *)
+      match goal with
+      | H : adj_refs ?s0 _ _ = Acc v |- _ => apply (mb_frame_trans s s0); [ fr | exact (frame_adj_refs _ _ _ _ H) ]
+      | H : release_entry ?s0 _ = Acc v |- _ => apply (mb_frame_trans s s0); [ fr | exact (frame_release_entry _ _ _ H) ]
+      end
   end.
 
 Lemma step_new_actor e s a x b :
@@ -283,11 +310,24 @@ Ltac prep_bools :=
   repeat match goal with
   | H : _ || _ = false |- _ => apply orb_false_iff in H; destruct H
   | H : negb _ = false |- _ => apply Bool.negb_false_iff in H
+  | H : _ && _ = true |- _ => apply andb_true_iff in H; destruct H
   | H : Nat.eqb _ _ = true |- _ => apply Nat.eqb_eq in H; subst
   end.
 
 Ltac deq_ev_tac :=
   cbn [deq_ev]; split; [ reflexivity | first [ exact I | reflexivity | eexists; split; eassumption ] ].
+
+Lemma ops_adj_refs s a b s' : adj_refs s a b = Acc s' -> ops s' = ops s.
+Proof. unfold adj_refs. intros H. inv_res H; subst s'; reflexivity. Qed.
+Lemma ops_release_entry s ty s' : release_entry s ty = Acc s' -> ops s' = ops s.
+Proof.
+  unfold release_entry. destruct (reg s ty); intros H; [eapply ops_adj_refs; eauto | injection H as <-; reflexivity].
+Qed.
+
+Lemma frame_reg_ret s o p k ty r s' : reg_ret s o p k ty r = Acc s' -> mb_frame s s'.
+Proof.
+  unfold reg_ret. intros H. inv_res H; subst s'; fr.
+Qed.
 
 Ltac step_tac s :=
   first
@@ -308,6 +348,7 @@ Ltac step_tac s :=
                 eapply mb_step_then_frame;
                 [ eapply step_deq; [ eassumption | exact Hd | deq_ev_tac | reflexivity ] | apply frame_put_op ] end ]
     | solve [ eapply step_teardown; eassumption ]
+    | solve [ apply mb_frame_step; eapply frame_reg_ret; eassumption ]
     | solve [ match goal with |- mb_step _ _ (put_actor (put_op _ ?o _) _ ?x') =>
                 match x' with context [enq ?w ?p ?v] =>
                   prep_bools;
@@ -321,6 +362,14 @@ Proof.
   destruct e; cbn [step]; intros H.
   all: inv_res H; norm_gets; subst.
   all: try step_tac s.
+  (* EvSpawn by a registry lookup: the old entry is released, the new actor appears *)
+  { eapply (mb_step_then_frame _ s (put_actor v a (fresh_actor c 1))).
+    - eapply (mb_frame_then_step _ s v);
+        [ exact (frame_release_entry _ _ _ Hv) | exact (ops_release_entry _ _ _ Hv) | ].
+      eapply step_new_actor; [|reflexivity].
+      destruct (frame_release_entry _ _ _ Hv) as (_ & B & _). apply B.
+      destruct (actors s a); [discriminate | reflexivity].
+    - eapply mb_frame_trans; [apply frame_set_reg | apply frame_set_rlock]. }
   (* EvBcast: the cursor moves, then one submission into the child's mailbox *)
   match goal with Hs : submit ?s1 _ ?o _ _ _ _ _ _ _ _ = Acc _ |- _ =>
     eapply step_submit in Hs; [ | cbn; fresh_op s o | reflexivity ];
